@@ -4,11 +4,12 @@ import random
 from .canon import esc, esc_list
 
 NICKS = ["alice", "bob", "carol", "dave", "oper", "reg"]
+CASE_NICKS = ["Alice", "BOB", "Carol", "aLICE"]
 ODD_NICKS = ["é", "a*b", "x?y", "[w]", "~t", "@z", "+p"]
 CHANS = ["#a", "#b", "&c", "#sec"]
 ODD_CHANS = ["#é", "#a:b", "&", "#", "#x y"]
 HOSTS = ["127.0.0.1", "10.0.0.2", "192.168.1.77", "::1"]
-MASKS = ["*!*@*", "alice!*@*", "*!*@127.0.0.1", "*!~al@*", "bob", "b*", "*o*!*@*", "a?ice", "*@10.0.0.2",
+MASKS = ["Alice!*@*", "*!~U*@*", "B*!*@*", "*!*@*", "alice!*@*", "*!*@127.0.0.1", "*!~al@*", "bob", "b*", "*o*!*@*", "a?ice", "*@10.0.0.2",
          "carol!~c@*", "*!*@10.*", "x", "*", "?", "*!*@192.168.1.77", "dave!*", "al*ce!~al*@127.*.1"]
 TEXTS = ["hello", "hello world", ":colon start", "a:b c", "", "tab\there", "ünï çødé", "x" * 30, "trailing ", " lead",
          ":)", "::", "a:b", "http://x.y:80/", ":"]
@@ -62,6 +63,7 @@ class Gen:
             w = {k: v * 0.15 for k, v in w.items()}
             w.update(over)
         self.weights = w
+        self.scene_rate = 0.0 if profile in ("fuzz", "pingpong") else 0.035
 
     # ------------------------------------------------------------------ config
     def gen_cfg(self):
@@ -123,6 +125,8 @@ class Gen:
             return r.choice(regs)
         if r.random() < 0.1:
             return r.choice(ODD_NICKS)
+        if r.random() < 0.12:
+            return r.choice(CASE_NICKS)
         return r.choice(NICKS)
 
     def pick_chan(self):
@@ -174,6 +178,11 @@ class Gen:
     # ------------------------------------------------------------------ one op
     def modestring(self):
         r = self.r
+        if r.random() < 0.12:
+            a, b = self.pick_nick(), self.pick_nick()
+            return r.choice(["+ol %s 10" % a, "+hl %s 3" % a, "+qk %s k1" % a, "+al %s 2" % a, "+vl %s 1" % a,
+                             "+ok %s k2" % a, "+oh %s %s" % (a, b), "-ol+k %s k1" % a, "+lo 10 %s" % a,
+                             "+bl *!*@* 2", "+ov %s %s" % (a, b), "+kl k1 2", "+lk 2 k1", "+ik k1", "+il 1"])
         n = r.choice([1, 1, 1, 2, 2, 3, 4])
         out = ""
         args = []
@@ -206,8 +215,105 @@ class Gen:
             return out + " " + " ".join(args) + " " + r.choice(["+m", "-t", "+v " + self.pick_nick()])
         return (out + " " + " ".join(args)).strip()
 
+    # ------------------------------------------------------------------ scenes
+    # short scripted interactions of two or three conditions that random choice rarely lines up
+    def scene(self):
+        r = self.r
+        regs = [c for c, x in self.conns.items() if x["live"] and x["done"] and x.get("nick")]
+        if len(regs) < 2:
+            return
+        r.shuffle(regs)
+        a, b = regs[0], regs[1]
+        c3 = regs[2] if len(regs) > 2 else None
+        na, nb = self.conns[a]["nick"], self.conns[b]["nick"]
+        ch = r.choice(["#s1", "#s2", "&s3"])
+        k = r.choice(["invite_key", "invite_recreate", "invite_ban", "ranks_ladder", "halfop_mode", "quota_invisible",
+                      "voice_rename", "wallops_rename", "flood_targets", "limit_invite", "case_twins", "kick_ranks",
+                      "secret_whois", "oper_cycle", "moderated_prefix", "ban_case", "rejoin_list", "topic_lock"])
+        L = self.line
+        if k == "invite_key":
+            L(a, "JOIN " + ch); L(a, "MODE %s +k sesame" % ch); L(a, "INVITE %s %s" % (nb, ch))
+            L(b, "JOIN " + ch + r.choice(["", " wrong", " sesame"]))
+            L(a, "MODE %s +I %s!*@*" % (ch, nb)); L(b, "JOIN " + ch + r.choice(["", " wrong"]))
+        elif k == "invite_recreate":
+            L(a, "JOIN " + ch); L(a, "INVITE %s %s" % (nb, ch)); L(a, "PART " + ch)
+            L(b, "JOIN " + ch); L(b, "PART " + ch); L(a, "JOIN " + ch); L(a, "MODE %s +i" % ch); L(b, "JOIN " + ch)
+        elif k == "invite_ban":
+            L(a, "JOIN " + ch); L(a, "MODE %s +b %s!*@*" % (ch, nb)); L(a, "INVITE %s %s" % (nb, ch)); L(b, "JOIN " + ch)
+            L(a, "MODE %s +e %s" % (ch, r.choice([nb + "!*@*", "*!*@127.*"]))); L(b, "JOIN " + ch)
+        elif k == "ranks_ladder":
+            L(a, "JOIN " + ch); L(b, "JOIN " + ch)
+            if c3: L(c3, "JOIN " + ch)
+            L(a, "MODE %s +%s %s" % (ch, r.choice(["h", "o", "v", "hv", "ho", "a"]), " ".join([nb] * 2)))
+            if c3: L(a, "MODE %s +%s %s" % (ch, r.choice(["v", "h", "o"]), self.conns[c3]["nick"]))
+            self.chan_members[ch] = [x for x in (a, b, c3) if x]
+            self.chan_founder[ch] = a
+        elif k == "halfop_mode":
+            L(a, "JOIN " + ch); L(b, "JOIN " + ch); L(a, "MODE %s +h %s" % (ch, nb))
+            L(b, "MODE %s %s" % (ch, r.choice(["+ol %s 10" % na, "+ql %s 5" % na, "+ok %s key" % nb, "+vl %s 2" % na,
+                                               "+al %s 3" % nb, "-o+l %s 4" % na, "+hl %s 7" % nb])))
+            L(b, "KICK %s %s" % (ch, na))
+        elif k == "quota_invisible":
+            if self.max_joins:
+                for i in range(self.max_joins):
+                    L(b, "JOIN #q%d" % i)
+            L(a, "JOIN " + ch); L(a, "MODE %s +i" % na); L(b, "WHO " + na); L(b, "JOIN " + ch)
+            L(b, "WHO " + na); L(b, "WHOIS " + na); L(b, "WHO %s*" % na[:2])
+        elif k == "voice_rename":
+            L(a, "JOIN " + ch); L(b, "JOIN " + ch); L(a, "MODE %s +%s %s" % (ch, r.choice("vvhoa"), nb))
+            L(b, "NICK " + nb + "2"); self.conns[b]["nick"] = nb + "2"
+            L(a, "PRIVMSG %s%s :to rank" % (r.choice(["+", "%", "@", "&"]), ch)); L(a, "NAMES " + ch)
+        elif k == "wallops_rename":
+            L(b, "MODE %s +w" % nb); L(b, "NICK " + nb + "3"); self.conns[b]["nick"] = nb + "3"
+            L(a, "OPER oper operpw"); L(a, "WALLOPS :after rename"); L(b, "QUIT"); self.conns[b]["live"] = False
+            L(a, "WALLOPS :after quit"); L(a, "LUSERS")
+        elif k == "flood_targets":
+            chans = ["#f%d" % i for i in range(r.choice([17, 18, 20]))]
+            L(a, "JOIN " + ",".join(chans[:10])); L(a, "JOIN " + ",".join(chans[10:]))
+            L(b, "PRIVMSG " + ",".join(chans) + " :flood")
+            L(b, "PRIVMSG " + ",".join([na] + [p + "#f0" for p in ("", "@", "~", "~@")] + chans[1:16]) + " :flood2")
+        elif k == "limit_invite":
+            L(a, "JOIN " + ch); L(a, "MODE %s +il 1" % ch); L(a, "INVITE %s %s" % (nb, ch)); L(b, "JOIN " + ch)
+            L(a, "MODE %s +l 5" % ch); L(b, "JOIN " + ch)
+        elif k == "case_twins":
+            t = r.choice(["Alice", "BOB", "Carol"])
+            L(b, "NICK " + t); self.conns[b]["nick"] = t
+            L(a, "NICK " + t.lower()); self.conns[a]["nick"] = t.lower()
+            L(a, "MODE %s %s" % (t, r.choice(["+i", "-o", "+w", ""]))); L(b, "MODE %s +w" % t.lower())
+            L(a, "JOIN " + ch); L(a, "MODE %s +b %s!*@*" % (ch, t)); L(b, "JOIN " + ch); L(b, "PRIVMSG %s :hi" % ch)
+        elif k == "kick_ranks":
+            L(a, "JOIN " + ch); L(b, "JOIN " + ch)
+            if c3: L(c3, "JOIN " + ch)
+            L(a, "MODE %s +%s %s" % (ch, r.choice(["hv", "h", "vh", "ho"]), " ".join([nb] * 2)))
+            if c3:
+                L(a, "MODE %s +%s %s" % (ch, r.choice(["o", "h", "a"]), self.conns[c3]["nick"]))
+                L(b, "KICK %s %s" % (ch, self.conns[c3]["nick"]))
+            L(b, "KICK %s %s,%s" % (ch, nb, na))
+        elif k == "secret_whois":
+            L(a, "JOIN " + ch); L(a, "MODE %s +s" % ch); L(a, "JOIN #pub"); L(b, "JOIN #pub")
+            L(b, "WHOIS " + na); L(b, "WHO " + ch); L(b, "NAMES"); L(b, "LIST")
+        elif k == "oper_cycle":
+            L(a, "OPER oper " + r.choice(["operpw", "bad"])); L(a, "OPER oper " + r.choice(["operpw", "bad"]))
+            L(a, "MODE %s -o" % na); L(a, "OPER oper bad"); L(a, "KILL %s :x" % nb); L(a, "LUSERS")
+        elif k == "moderated_prefix":
+            L(a, "JOIN " + ch); L(b, "JOIN " + ch); L(a, "MODE %s +m" % ch)
+            L(b, "PRIVMSG %s%s :psst" % (r.choice(["@", "%", "~", "&", "+", ""]), ch)); L(b, "NOTICE @%s :psst" % ch)
+        elif k == "ban_case":
+            t = r.choice(CASE_NICKS)
+            L(b, "NICK " + t); self.conns[b]["nick"] = t
+            L(a, "JOIN " + ch); L(b, "JOIN " + ch); L(a, "MODE %s +b %s" % (ch, t)); L(b, "PRIVMSG %s :still here" % ch)
+            L(b, "PART " + ch); L(b, "JOIN " + ch); L(a, "MODE %s +e %s!*@*" % (ch, t)); L(b, "JOIN " + ch)
+        elif k == "rejoin_list":
+            L(a, "JOIN " + ch); L(b, "JOIN " + ch); L(a, "JOIN %s,#r9" % ch); L(b, "NAMES " + ch); L(b, "WHOIS " + na)
+        elif k == "topic_lock":
+            L(a, "JOIN " + ch); L(b, "JOIN " + ch); L(a, "MODE %s +t" % ch); L(b, "TOPIC %s :by member" % ch)
+            L(a, "MODE %s +k first" % ch); L(a, "MODE %s +k second" % ch); L(a, "MODE " + ch)
+
     def gen_op(self):
         r = self.r
+        if r.random() < self.scene_rate:
+            self.scene()
+            return
         verbs = list(self.weights.keys())
         v = r.choices(verbs, [self.weights[k] for k in verbs])[0]
         if v == "CONNECT":
@@ -332,8 +438,10 @@ class Gen:
             self.line(c, "INVITE %s %s" % (self.pick_nick(0.85), self.cur_chan or self.pick_chan()))
         elif v == "NICK":
             x = r.random()
-            if x < 0.55:
+            if x < 0.45:
                 n = r.choice(NICKS)
+            elif x < 0.57:
+                n = r.choice(CASE_NICKS)
             elif x < 0.75:
                 n = self.pick_nick(1.0)
             elif x < 0.85:
